@@ -253,6 +253,8 @@ def annotate_diffs(diffs, src):
             d["col_delta"] = d["b"] - d["a"]
             if ln and d.get("end_lineno") and 0 < ln <= d["end_lineno"] <= len(lines):
                 d["span_has_escaped_brace"] = bool(_re.search(r"\{\{|\}\}", "\n".join(lines[ln - 1:d["end_lineno"]])))
+                d["span_has_non_ascii"] = not "\n".join(lines[ln - 1:d["end_lineno"]]).isascii()
+                d["multi_line"] = d["end_lineno"] > ln
         if d["what"] in ("attr:col_offset", "attr:end_col_offset") and isinstance(d.get("a"), int):
             # CPython counts columns in UTF-8 bytes; is the implementation's value the same position counted in characters?
             l2 = ln if d["what"] == "attr:col_offset" else d.get("end_lineno")
